@@ -64,6 +64,11 @@ func c08Get() *c08Env {
 			c08E.close()
 		}
 		c08E = newC08Env()
+		// some stations are hunted / captured, so that the handlers' branches for them are entered too
+		w := gen.DefaultWorld()
+		c08E.arp.StartHunt(packet.Addr{MAC: hw(w.Clients[0]), IP: netip.MustParseAddr("192.168.0.2")})
+		c08E.icmp6.StartHunt(packet.Addr{MAC: hw(w.Clients[0]), IP: netip.MustParseAddr("fe80::1")})
+		c08E.s.Capture(hw(w.Clients[1]))
 	}
 	c08E.n++
 	return c08E
